@@ -141,7 +141,7 @@ size_t svalue_save_size (const svalue_t * v) {
       {
         char buf[256];
         sprintf (buf, "%g", v->u.real);
-        return strlen (buf) + 1; /* 1 for comma/colon */
+        return strlen (buf) + 3; /* 1 for comma/colon, 2 for a ".0" that marks an integral value as float */
       }
 
     default:
@@ -244,6 +244,9 @@ void save_svalue (svalue_t * v, char **buf) {
     case T_REAL:
       {
         sprintf (*buf, "%g", v->u.real);
+        /* "3" would be restored as an integer: keep the value recognisable as a float */
+        if (!strpbrk (*buf, ".enia"))
+          strcat (*buf, ".0");
         (*buf) += strlen (*buf);
         return;
       }
